@@ -112,18 +112,34 @@ def bounded(items: Any, per_case_s: float, deadline_s: float, label: Any = None)
 		signal.setitimer(signal.ITIMER_REAL, 0)
 
 
-def guarded(fn: Any, ctx: Any, on_timeout: Any) -> Any:
+def guarded(fn: Any, ctx: Any, on_timeout: Any, on_error: Any = None) -> Any:
 	"""Runs one stream/search function with the SIGALRM handler installed; a CaseTimeout that escapes the function is turned
-	into its result by `on_timeout(case label)` (a Stream with a disagreement / a SearchResult with a finding)."""
+	into its result by `on_timeout(case label)` (a Stream with a disagreement / a SearchResult with a finding). Safety net:
+	any other exception that escapes the function (a result of the real code that the harness could not read or format) is
+	turned into its result by `on_error(case label, description)` instead of crashing the check (a crash would be exit 2 =
+	no verdict); infrastructure failures keep propagating."""
+	from harness.common import InfraError
+
 	def handler(signum: int, frame: Any) -> None:
 		raise CaseTimeout(CURRENT['case'])
 
 	CURRENT['stats'] = {}
+	CURRENT['case'] = None
 	old = signal.signal(signal.SIGALRM, handler)
 	try:
 		out = fn(ctx)
 	except CaseTimeout:
 		out = on_timeout(CURRENT['case'])
+	except InfraError:
+		raise
+	except Exception as e:  # noqa: BLE001
+		if on_error is None:
+			raise
+		import traceback
+		signal.setitimer(signal.ITIMER_REAL, 0)
+		frames = traceback.extract_tb(e.__traceback__)[-3:]
+		where = ' <- '.join(f'{os.path.basename(f.filename)}:{f.lineno} {f.name}' for f in reversed(frames))
+		out = on_error(CURRENT['case'], f'{type(e).__name__}: {str(e)[:300]} [{where}]')
 	finally:
 		signal.setitimer(signal.ITIMER_REAL, 0)
 		signal.signal(signal.SIGALRM, old)
